@@ -3,7 +3,7 @@
    store) and for ANY trie O that satisfies trie_spec O - the external sparse Merkle trie is modelled, not
    verified; trie_spec is its trusted interface, and C09_trie_spec_satisfiable shows an executable instance. *)
 From Coq Require Import NArith ZArith List Bool.
-From Verif.C09_ADS Require Import Model Proofs Refine Examples.
+From Verif.C09_ADS Require Import Model Proofs Refine Examples Shared SharedProofs.
 Import ListNotations.
 
 (* Refinement to a plain map.  For every history whose reopens happen with nothing uncommitted: every output
@@ -91,6 +91,80 @@ Example C09_roots_nonvacuous :
    map_root c_ops (state_after c_ops route1) <> map_root c_ops (state_after c_ops route3)).
 Proof. exact (conj routes_same_contents routes_roots). Qed.
 
+(* ---- Several instances in different realms of ONE database (Shared.v: a flat key-value list; an instance derives its
+   four sub-stores realm++[0..3] from the realm of the store view it is handed, layout ext_addr) ---- *)
+
+(* Any interleaving of calls on 2, 3, ... instances (maps and sets) whose realms are pairwise separated (they diverge,
+   or one properly extends the other with a byte >= 4), with reopen of each and Clear of a store view + new instance
+   (only for a realm that is not a prefix of a sibling's): every call returns what the same instance returns when it
+   runs alone over a store of its own - so C09_refines_map, C09_root_content_only, C09_reopen ... hold for every
+   instance of the shared database, unaffected by the siblings - and finally every instance's view of the database
+   is its isolated state. *)
+Theorem C09_shared_db_refines : forall O, trie_spec O -> forall Rs h,
+  realms_okb Rs = true -> hist_okb Rs h = true ->
+  snd (sys_run O ext_addr Rs (sys_init O ext_addr Rs) h) = snd (iso_run O (iso_init O Rs) h) /\
+  (let s := fst (sys_run O ext_addr Rs (sys_init O ext_addr Rs) h) in
+   forall i R t, nth_error Rs i = Some R -> nth_error (snd s) i = Some t ->
+     nth_error (fst (iso_run O (iso_init O Rs) h)) i = Some (view O (ext_addr R) (fst s) t)).
+Proof. exact shared_db_refines. Qed.
+
+(* Frame: for ANY database contents and any single call e of an instance in realm R1 (no premise on the trie, no
+   invariant): an instance in a realm R2 with a disjoint key footprint keeps its view of the database - live and as a
+   new instance opened over its store view - hence its Root, Size, Stream, Get and WasRestored. *)
+Theorem C09_instances_independent : forall O R1 R2, fp_disjoint R1 R2 -> forall db t1 e t2,
+  let db' := fst (fst (sh_step O (ext_addr R1) db t1 e)) in
+  let m := view O (ext_addr R2) db t2 in let m' := view O (ext_addr R2) db' t2 in
+  let n := view O (ext_addr R2) db (sh_open O (ext_addr R2) db) in
+  let n' := view O (ext_addr R2) db' (sh_open O (ext_addr R2) db') in
+  (map_root O m' = map_root O m /\ map_size O m' = map_size O m /\ map_stream O m' = map_stream O m /\
+   (forall k, map_get O m' k = map_get O m k) /\ was_restored O m' = was_restored O m) /\
+  (map_root O n' = map_root O n /\ map_size O n' = map_size O n /\ map_stream O n' = map_stream O n /\
+   (forall k, map_get O n' k = map_get O n k) /\ was_restored O n' = was_restored O n).
+Proof. exact instances_independent_observables. Qed.
+
+(* ... the same as equality of the whole view, and for Clear() of instance 1's store view. *)
+Theorem C09_instances_independent_view : forall O R1 R2, fp_disjoint R1 R2 -> forall db t1 e,
+  let db' := fst (fst (sh_step O (ext_addr R1) db t1 e)) in
+  (forall t2, view O (ext_addr R2) db' t2 = view O (ext_addr R2) db t2) /\
+  sh_open O (ext_addr R2) db' = sh_open O (ext_addr R2) db.
+Proof. exact instances_independent. Qed.
+
+Theorem C09_wipe_independent : forall O R1 R2, fp_disjoint R1 R2 -> prefixb R1 R2 = false -> forall db,
+  let db' := kv_clear O R1 db in
+  (forall t2, view O (ext_addr R2) db' t2 = view O (ext_addr R2) db t2) /\
+  sh_open O (ext_addr R2) db' = sh_open O (ext_addr R2) db.
+Proof. exact wipe_independent. Qed.
+
+(* The decidable realm condition (the one the harness generates realms with) gives disjoint footprints:
+   no key realm1 ++ c :: x equals a key realm2 ++ c' :: y for sub-realm bytes c, c' < 4. *)
+Theorem C09_separated_footprints : forall a b, separatedb a b = true ->
+  forall c1 c2 x y, (c1 < 4)%N -> (c2 < 4)%N -> a ++ c1 :: x <> b ++ c2 :: y.
+Proof. exact separated_footprints. Qed.
+
+(* Non-vacuity: empty realm, A, AB with an interleaved history incl. reopen and wipe. *)
+Example C09_shared_guards_nonvacuous :
+  realms_okb [[]; rA; rAB] = true /\ hist_okb [[]; rA; rAB] shared_history = true.
+Proof. exact (conj (proj1 shared_guards_nonvacuous) (proj1 (proj2 shared_guards_nonvacuous))). Qed.
+
+(* The model exhibits the defect class (seed C09-m9): with the raw-key mirror derived by an ABSOLUTE realm, Stream of
+   the map in realm B shows the key of the map in realm A; layout of the code and the isolated run show nothing. *)
+Example C09_absolute_realm_leaks :
+  realms_okb [rA; rB] = true /\
+  snd (sys_run c_ops abs_raw_addr [rA; rB] (sys_init c_ops abs_raw_addr [rA; rB]) leak_history) =
+    [Some (ONone c_ops); Some (OStream c_ops [(kx, None)])] /\
+  snd (sys_run c_ops ext_addr [rA; rB] (sys_init c_ops ext_addr [rA; rB]) leak_history) =
+    [Some (ONone c_ops); Some (OStream c_ops [])] /\
+  snd (iso_run c_ops (iso_init c_ops [rA; rB]) leak_history) = [Some (ONone c_ops); Some (OStream c_ops [])].
+Proof. exact absolute_realm_leaks. Qed.
+
+(* The realm guard is needed: empty realm next to realm [0] (the first one's raw-key realm) leaks in the code's layout. *)
+Example C09_unseparated_realms_leak :
+  realms_okb [[]; [0%N]] = false /\
+  snd (sys_run c_ops ext_addr [[]; [0%N]] (sys_init c_ops ext_addr [[]; [0%N]])
+         [SOp 1 (ESet kx (Some [1%N])); SOp 0 EStream]) =
+    [Some (ONone c_ops); Some (OStream c_ops [([0%N; 97%N], None); ([3%N], None)])].
+Proof. exact unseparated_realms_leak. Qed.
+
 Print Assumptions C09_refines_map.
 Print Assumptions C09_size_exact.
 Print Assumptions C09_refines_map_any_reopen.
@@ -100,3 +174,8 @@ Print Assumptions C09_reopen.
 Print Assumptions C09_restored_iff_committed.
 Print Assumptions C09_trie_spec_satisfiable.
 Print Assumptions C09_refuted_dirty_reopen_size.
+Print Assumptions C09_shared_db_refines.
+Print Assumptions C09_instances_independent.
+Print Assumptions C09_instances_independent_view.
+Print Assumptions C09_wipe_independent.
+Print Assumptions C09_separated_footprints.
